@@ -66,7 +66,7 @@ def registry():
     except ImportError:
         P = None
     reg['C03'] = dict(
-        rules=[T.rule_pb_sig, T.rule_pb_acc, T.rule_pb_out, T.rule_pb_view, T.rule_pb_ro, T.rule_pb_complete, T.rule_pb_pair, T.rule_setitem_copy, T.rule_pb_setitem_clear, T.rule_pb_rebind, T.rule_pb_dead] + ([G.rule_pb_grade('C03')] if G is not None else []),
+        rules=[T.rule_pb_sig, T.rule_pb_acc, T.rule_pb_out, T.rule_pb_view, T.rule_pb_ro, T.rule_pb_complete, T.rule_pb_pair, T.rule_setitem_copy, T.rule_pb_setitem_clear, T.rule_pb_rebind, T.rule_pb_dead, S.rule_const_all_coeffs, T.rule_pb_threshold] + ([G.rule_pb_grade('C03')] if G is not None else []),
         explanation='Static decision of the tracer<->pullback calling protocol every traced program depends on. '
                     'Decides: existence/arity/keyword/permutation agreement between each recorder site and UTPM.pb_<name> '
                     '(R-pb-sig); accumulate-never-overwrite into adjoint storage (R-pb-acc, via the E1 alias/effect analysis '
@@ -134,7 +134,7 @@ def registry():
             assumptions=['the weight calculus of DESIGN.md sec. 2.3 (an algebraic invariant of truncated power series)',
                          'kernel naming convention _NAME <-> NumPy/SciPy function NAME'])
         reg['C02'] = dict(
-            rules=[G.rule_grade('C02'), S.rule_kinds, S.rule_kernel_dtype, S.rule_reflect, G.rule_alias, S.rule_operand_order],
+            rules=[G.rule_grade('C02'), S.rule_kinds, S.rule_kernel_dtype, S.rule_reflect, G.rule_alias, S.rule_operand_order, S.rule_const_all_coeffs],
             explanation='Static decision of structural conditions of the arithmetic operators: the convolution kernels and all eleven operator '
                         'bodies are homogeneous in the grading (O3: in particular a scalar/array constant meets coefficient 0 only for +,- '
                         'and every coefficient for *,/) with maximal ranges (O4); evidence rules on constants and result dtypes (C02.kinds); '
@@ -153,7 +153,7 @@ def registry():
         reg['C08'] = dict(
             rules=[G.rule_grade('C08'), lambda ctx: S.rule_base(ctx, ['_cholesky', '_qr_rectangular', '_qr_full', '_eigh1'], 'C08.base'),
                    _only(P.rule_p3, FACT, 'C08.dir-after'), _only(P.rule_p3b, FACT, 'C08.dir-carried'),
-                   _only(P.rule_paxis, FACT, 'C08.dir-const'), _only(P.rule_p4, FACT, 'C08.dir-joint'), _only(G.rule_out_defined, FACT, 'C08.out-defined'), S.rule_wrap_order],
+                   _only(P.rule_paxis, FACT, 'C08.dir-const'), _only(P.rule_p4, FACT, 'C08.dir-joint'), _only(G.rule_out_defined, FACT, 'C08.out-defined'), S.rule_wrap_order, S.rule_cast_guard],
             explanation='Static decision of structural conditions of the factorization recurrences: in _qr_rectangular, _qr_full, _cholesky, '
                         '_eigh1, lu, lu2, lu_factor every residual (dF, dG, H, S, K) and every factor coefficient is homogeneous of the order '
                         'being defined (O3) and the residual sums are maximal (O4); base points come from numpy.linalg.qr / scipy.linalg.qr / '
